@@ -67,7 +67,10 @@ def _histories(rng, n):
     ops = [o for o in G.ALL_OPS if o != "createsched"]     # create_schedule reads the clock twice: single-operation streams only
     while len(out) < n:
         op = rng.choice(ops)
-        faulty = [c for c in _faults(rng, op, full=False) if c["_fault"].split("@")[0] in ("empty", "prefix")]
+        if len(out) % 3 == 2 and rng.random() < 0.6:
+            op = rng.choice(["getState", "getshutter", "getbreeze", "ctlbreeze"])
+        fl = _faults(rng, op, full=False)
+        faulty = [c for c in fl if c["_fault"].split("@")[0] in ("empty", "prefix")]
         c = rng.choice(faulty)
         t2 = op in H.TYPE2_OPS
         good_op = rng.choice(["stop", "getshutter", "setpos"] if t2 else ["getState", "control", "getschedules"])
@@ -75,6 +78,13 @@ def _histories(rng, n):
         t = float(rng.randrange(1_600_000_000, 1_900_000_000))
         mk = lambda case, at, tag: {"now": at, "req": case["req"], "replies": case["replies"], "_fault": tag}  # noqa: E731
         g2, _ = _base_case(rng, good_op)
+        if len(out) % 3 == 2:
+            # the SAME operation: answered well, then twice in a row with the very same bad replies, then answered well again -
+            # a bad reply is a bad reply however often it comes and whatever was parsed before
+            ok = fl[0]
+            out.append({"tz": "UTC", "schedule": [], "instances": [{"did": c["did"], "key": c["key"], "api": "type2" if t2 else "type1",
+                        "ops": [mk(ok, t, "none"), mk(c, t + 7, c["_fault"]), mk(c, t + 9, c["_fault"]), mk(ok, t + 20, "none")]}]})
+            continue
         out.append({"tz": "UTC", "schedule": [], "instances": [{"did": c["did"], "key": c["key"], "api": "type2" if t2 else "type1",
                     "ops": [mk(g, t, "none"), mk(c, t + 7, c["_fault"]), mk(g2, t + 20, "none")]}]})
     return out
